@@ -15,9 +15,9 @@ RULE = ("seeded random dependency DAGs over two spaces (3-8 cells, cached and un
 ASSUMPTIONS = ["ground truth from the generator's call structure, cross-checked against the probe's ENTER nesting",
                "precedents() is compared as a superset for references"]
 MIN_COUNTERS = {"quick": {"preds_checks": 20000, "succs_checks": 20000, "precedents_checks": 10000, "graph_checks": 5000,
-                          "failed_evals": 300},
+                          "failed_evals": 150},
                 "thorough": {"preds_checks": 600000, "succs_checks": 600000, "precedents_checks": 300000,
-                             "graph_checks": 150000, "failed_evals": 9000}}
+                             "graph_checks": 150000, "failed_evals": 5000}}
 
 
 def gen_cases(tier, seed):
